@@ -12,6 +12,7 @@ import (
 	"github.com/go-openapi/spec"
 
 	"verif/harness/internal/gen"
+	"verif/harness/internal/refgraph"
 	"verif/harness/internal/wire"
 )
 
@@ -228,4 +229,87 @@ func runC19(c *Ctx) {
 		c.Fail(Failure{Kind: "oracle", Sig: sig, What: "valid document becomes invalid after " + jb.what + ": " + ovs[j].Error,
 			Case: map[string]interface{}{"doc": json.RawMessage(texts[jb.idx]), "with_refs": withRefs[jb.idx]}, Impl: clip(outs[j])})
 	}
+
+	// multi-document expansions: roots of generated reference graphs that the validator accepts (elements
+	// imported from other documents, cycles, cross-directory layouts), expanded with every option combination
+	{
+		fams := []graphFamily{
+			{"elements-acyclic", refgraph.Options{Docs: 3, Defs: 2, Elements: true, RefP: 0.7, Spellings: true, SwaggerOnly: true}},
+			{"elements-cyclic", refgraph.Options{Docs: 3, Defs: 2, Elements: true, Cycles: true, RefP: 0.6, Spellings: true, SwaggerOnly: true}},
+			{"http-and-dirs", refgraph.Options{Docs: 5, Defs: 2, Elements: true, Cycles: true, RefP: 0.6, Spellings: true, HTTP: true, SwaggerOnly: true}},
+			{"same-path-twins", refgraph.Options{Docs: 4, Defs: 2, Elements: true, Cycles: true, RefP: 0.6, Spellings: true, Twins: true, SwaggerOnly: true}},
+		}
+		nw := c.N(160, 3000)
+		var worlds []*refgraph.World
+		var roots []string
+		for i := 0; i < nw; i++ {
+			w := refgraph.Generate(c.Rng, fams[i%len(fams)].opts)
+			if len(w.BuildGraph().Missing) > 0 || duplicateParameters(w) {
+				continue
+			}
+			worlds = append(worlds, w)
+			roots = append(roots, w.Docs[w.Root].Text())
+		}
+		rvs, err := validateAll(c, roots)
+		if err != nil {
+			c.Fail(Failure{Kind: "crash", Sig: "C19:validator-unavailable", What: err.Error()})
+			return
+		}
+		var mouts []string
+		var mjobs []int
+		var mopts []expOpts
+		for i, w := range worlds {
+			if !rvs[i].Valid {
+				c.Hit("multi-doc-root-invalid")
+				continue
+			}
+			c.Hit("multi-doc-root-valid")
+			c.Count(roots[i], true)
+			o := expOpts{Absolute: i%2 == 0, Skip: i%5 == 4}
+			res := expandWorld(w, o)
+			if res.Err != nil || res.Panic != "" || res.Hang {
+				c.Hit("multi-doc-expand-error")
+				continue
+			}
+			mouts = append(mouts, res.Out.Text())
+			mjobs = append(mjobs, i)
+			mopts = append(mopts, o)
+		}
+		movs, err := validateAll(c, mouts)
+		if err != nil {
+			c.Fail(Failure{Kind: "crash", Sig: "C19:validator-unavailable", What: err.Error()})
+			return
+		}
+		for j, wi := range mjobs {
+			c.Hit("multi-doc-expand-checked")
+			if !movs[j].Valid {
+				c.Fail(Failure{Kind: "oracle", Sig: "C19:expand-invalid", What: "valid multi-document specification becomes invalid after expand (" + mopts[j].String() + "): " + movs[j].Error,
+					Case: map[string]interface{}{"world": worldJSON(worlds[wi]), "options": mopts[j].String()}, Impl: clip(mouts[j])})
+			}
+		}
+	}
+}
+
+// duplicateParameters: some parameter list of the root holds two entries that denote the same parameter (e.g.
+// two spellings of one $ref): the list is unique as written but not once dereferenced - a property of the
+// input, not of the expander.
+func duplicateParameters(w *refgraph.World) bool {
+	dup := false
+	for u, doc := range w.Docs {
+		u := u
+		doc.Walk(nil, func(path []string, v wire.V) {
+			if len(path) == 0 || path[len(path)-1] != "parameters" || v.Kind != wire.Arr {
+				return
+			}
+			seen := map[string]bool{}
+			for _, p := range v.A {
+				t := w.Unfold(u, "parameter", p, 4)
+				if seen[t] {
+					dup = true
+				}
+				seen[t] = true
+			}
+		})
+	}
+	return dup
 }
